@@ -1175,6 +1175,9 @@ class Interp:
                 if f.attr == "pop" and len(e.args) < 2:
                     raise _PyRaise("KeyError")
                 return self.eval(e.args[1]) if len(e.args) > 1 else None
+        # super().method(...)
+        if isinstance(f, ast.Attribute) and isinstance(f.value, ast.Call) and isinstance(f.value.func, ast.Name) and f.value.func.id == "super" and "__super__" in self.externals:
+            return self.externals["__super__"](self.cls_name, f.attr, self.env.get("self"), self.eval_args(e.args), self.eval_kwargs(e.keywords))
         # a callable object stored in an attribute of self (an interpolator, a recorded function ...)
         if isinstance(f, ast.Attribute) and isinstance(f.value, ast.Name) and f.value.id == "self" and f.attr not in self.methods:
             target = self.selfattrs.get(self._mangle(f.attr))
